@@ -10,6 +10,7 @@ import (
 	_ "slimverif/harness/fam/arr"
 	_ "slimverif/harness/fam/enc"
 	_ "slimverif/harness/fam/idx"
+	_ "slimverif/harness/fam/leg"
 	_ "slimverif/harness/fam/trie"
 	_ "slimverif/harness/fam/wire"
 	"slimverif/harness/lp"
